@@ -157,9 +157,12 @@ WRAP:
 			added = true
 			t = time.Date(t.Year(), t.Month(), t.Day(), t.Hour(), 0, 0, 0, loc)
 		}
+		day := t.Day()
 		t = t.Add(1 * time.Hour)
 
-		if t.Hour() == 0 {
+		// Wrapped around. Compare the day rather than testing for hour 0:
+		// midnight does not exist on days whose DST gap starts at 00:00.
+		if t.Day() != day {
 			goto WRAP
 		}
 	}
@@ -169,9 +172,12 @@ WRAP:
 			added = true
 			t = t.Truncate(time.Minute)
 		}
+		hour := t.Hour()
 		t = t.Add(1 * time.Minute)
 
-		if t.Minute() == 0 {
+		// Wrapped around. Compare the hour rather than testing for minute 0:
+		// minute 0 does not exist in an hour entered through a 30-minute DST gap.
+		if t.Hour() != hour {
 			goto WRAP
 		}
 	}
